@@ -22,25 +22,36 @@ inline std::atomic<long> g_heap_news{0}, g_heap_deletes{0};
 // ---- live frame table: every frame handed out by a monitored storage, lock free (relaxed atomics only, no RMW except the slot claim)
 struct frame_table {
     static constexpr int N = 64;
-    std::atomic<char *> p[N]; std::atomic<size_t> sz[N];
+    // one word per slot: (pointer << 16) | size  - pointer and size are always read consistently (a monitor race would be a false alarm)
+    std::atomic<uint64_t> slot[N];
     std::atomic<unsigned> errors{0};
-    frame_table() { for (int i = 0; i < N; i++) { p[i] = nullptr; sz[i] = 0; } }
+    frame_table() { for (int i = 0; i < N; i++) slot[i] = 0; }
+    static uint64_t pack(char *ptr, size_t n) { return ((uint64_t)(uintptr_t)ptr << 16) | (uint64_t)(n & 0xFFFF); }
+    static char *ptr_of(uint64_t v) { return (char *)(uintptr_t)(v >> 16); }
+    static size_t size_of(uint64_t v) { return (size_t)(v & 0xFFFF); }
     void add(char *ptr, size_t n) {
+        if (n > 0xFFFF) n = 0xFFFF;
         for (int i = 0; i < N; i++) {
-            char *q = p[i].load(std::memory_order_relaxed);
-            if (q && ptr < q + sz[i].load(std::memory_order_relaxed) && q < ptr + n) errors.fetch_or(vf::MS_OVERLAP, std::memory_order_relaxed); // two live frames share memory
+            uint64_t v = slot[i].load(std::memory_order_relaxed);
+            char *q = ptr_of(v);
+            if (v && ptr < q + size_of(v) && q < ptr + n) errors.fetch_or(vf::MS_OVERLAP, std::memory_order_relaxed); // two live frames share memory
         }
-        for (int i = 0; i < N; i++) { char *e = nullptr; if (p[i].load(std::memory_order_relaxed) == nullptr && p[i].compare_exchange_strong(e, ptr, std::memory_order_relaxed)) { sz[i].store(n, std::memory_order_relaxed); return; } }
+        uint64_t nv = pack(ptr, n);
+        for (int i = 0; i < N; i++) { uint64_t e = 0; if (slot[i].load(std::memory_order_relaxed) == 0 && slot[i].compare_exchange_strong(e, nv, std::memory_order_relaxed)) return; }
     }
     void remove(char *ptr, size_t n) {
-        for (int i = 0; i < N; i++) if (p[i].load(std::memory_order_relaxed) == ptr) {
-            if (sz[i].load(std::memory_order_relaxed) != n) errors.fetch_or(vf::MS_SIZE_MISMATCH, std::memory_order_relaxed);
-            p[i].store(nullptr, std::memory_order_relaxed);
-            return;
+        if (n > 0xFFFF) n = 0xFFFF;
+        for (int i = 0; i < N; i++) {
+            uint64_t v = slot[i].load(std::memory_order_relaxed);
+            if (v && ptr_of(v) == ptr) {
+                if (size_of(v) != n) errors.fetch_or(vf::MS_SIZE_MISMATCH, std::memory_order_relaxed);
+                slot[i].store(0, std::memory_order_relaxed);
+                return;
+            }
         }
         errors.fetch_or(vf::MS_DOUBLE_FREE, std::memory_order_relaxed); // released twice / never handed out
     }
-    int live() const { int c = 0; for (int i = 0; i < N; i++) if (p[i].load(std::memory_order_relaxed)) c++; return c; }
+    int live() const { int c = 0; for (int i = 0; i < N; i++) if (slot[i].load(std::memory_order_relaxed)) c++; return c; }
 };
 inline frame_table g_frames;
 inline std::atomic<long> g_frame_allocs{0}, g_frame_deallocs{0};
